@@ -53,3 +53,14 @@ chk("C08", "exploration",
     "Trusted: the affine model (s, z) written from the statement; forms the statement does not list (point+point, "
     "difference-point, point-vs-difference comparisons) are counted but not judged; a refusal is always accepted for additive forms.",
     "exhaustive pair-table enumeration + Hypothesis readings vs exact affine model", "DESIGN.md §3 C08")
+chk("C03", "exploration",
+    "Hypothesis-generated ordered triples of commensurable units in six families (compound units with partners constructed "
+    "factor by factor, all temperature spellings x SI prefixes, angle offsets lat/lon, the five CGS<->SI electromagnetic pairs "
+    "with prefixes, custom-registry affine units with generated exact-rational scale and offset incl. negative scales, and "
+    "float32/complex/integer data) pushed through to / in_units / to_value / convert_to_units / get_conversion_factor by hand / "
+    "in_base / in_mks / in_cgs and their in-place twins; identity, inverse and composition laws, route agreement in numbers and "
+    "resulting unit, exact rational expectation for generated affine parameters; the temperature pair table is enumerated "
+    "exhaustively. The symbolic 'for all real scale/offset' clause is searched, not proved.",
+    "Trusted: nothing but the laws themselves and exact Fraction arithmetic; tolerance 64 eps x (|value| + zero-point magnitudes / "
+    "target scale). 32-bit data restricted to scale ranges that cannot overflow float32.",
+    "Hypothesis law/metamorphic testing (round trip, composition, route differential) + exhaustive temperature table", "DESIGN.md §3 C03")
